@@ -632,7 +632,7 @@ fn c17(ctx: &Ctx) -> i32 {
     );
     report.assume("protobuf corpora are built in single-file and split mode (workspace mode is exercised with the thrift corpora)");
     report.assume("schedule diversity comes from process repetition, thread-count variation, concurrent load and the jitter hook (cfg pilota_verif: 0-2 ms sleep per module task keyed by seed and module path); it is sampled, not enumerated; the hook's order log gives the number of distinct task completion orders actually observed");
-    let runs = ctx.scale(20, 200) as usize;
+    let runs = ctx.scale(20, 120) as usize;
     let ncorp = ctx.scale(2, 8) as usize;
     let threads = [1usize, 2, 3, 4, 6, 8, 12, 16];
     let mut corpora: Vec<Doc> = (0..ncorp)
